@@ -92,6 +92,33 @@ partial def literals : Exp E → List Rat
   | .min es | .max es | .and es | .or es => es.flatMap literals
   | .xor a b | .implies a b | .iff a b | .bin _ a b => literals a ++ literals b
 
+/-- `1.0 / d` overflows to ±inf in IEEE double (round to nearest): `1/|d| ≥ 2^1024 − 2^970`. -/
+def reciprocalOverflows (d : Rat) : Bool :=
+  d != 0 && 1 / rabs d ≥ (2 : Rat) ^ (1024 : Nat) - (2 : Rat) ^ (970 : Nat)
+
+partial def hasReciprocalOverflow : Exp E → Bool
+  | .num _ | .var _ => false
+  | .abs e | .not e | .un _ e => hasReciprocalOverflow e
+  | .min es | .max es | .and es | .or es => es.any hasReciprocalOverflow
+  | .bin .div a (.num (.fin d)) => reciprocalOverflows d || hasReciprocalOverflow a
+  | .xor a b | .implies a b | .iff a b | .bin _ a b => hasReciprocalOverflow a || hasReciprocalOverflow b
+
+def f64Overflows (q : Rat) : Bool := rabs q ≥ (2 : Rat) ^ (1024 : Nat) - (2 : Rat) ^ (970 : Nat)
+
+/-- some affine sub-expression has (exactly) a coefficient, a constant or a reciprocal of a divisor that
+overflows IEEE double: `AffineForm::from_exp` then carries an infinite coefficient. -/
+partial def formOverflows (e : Exp E) : Bool :=
+  let here : Bool := match AffineForm.fromExp e with
+    | some f => f.coefficients.any (fun p => match p.2 with | .fin q => f64Overflows q | _ => false)
+                || (match f.constant with | .fin q => f64Overflows q | _ => false)
+    | none => false
+  here || match e with
+    | .num _ | .var _ => false
+    | .abs a | .not a | .un _ a => formOverflows a
+    | .min es | .max es | .and es | .or es => es.any formOverflows
+    | .bin .div a (.num (.fin d)) => reciprocalOverflows d || formOverflows a
+    | .xor a b | .implies a b | .iff a b | .bin _ a b => formOverflows a || formOverflows b
+
 def dedupQ (xs : List Rat) : List Rat :=
   xs.foldl (fun acc x => if acc.contains x then acc else acc ++ [x]) []
 
@@ -178,6 +205,7 @@ def check (tol : Sexp) (d cs es vs bs d' : List Sexp) : Sexp :=
         | none => Bounds.unbounded
     let lits := dedupQ ((cs.flatMap fun c => literals c.lhs ++ literals c.rhs) ++ es.flatMap literals)
     let mag0 := magnitude (lits ++ (dom.flatMap fun dv => endpoints (Bounds.ofVarType dv.ty)))
+    let coefOverflow := cs.any fun c => formOverflows c.lhs || formOverflows c.rhs
     -- exact run of the model with a small step cap: candidate coordinates only
     let exact := Analyzer.analyze dom cs tol 40
     -- A. feasible points
@@ -201,13 +229,11 @@ def check (tol : Sexp) (d cs es vs bs d' : List Sexp) : Sexp :=
         let pb := pubOf p.1
         match escape p.2 pb with
         | none =>
-          let ex := Analyzer.varBounds exact.variableBounds p.1
-          let kind := if ex.lower.isNaN || ex.upper.isNaN then "nan-range" else "nan-range-float-overflow"
-          { acc with violation := some (app "violation" [.atom kind, .str p.1, Oracle.encAssign a]) }
+          { acc with violation := some (app "violation" [.atom "nan-range", .str p.1, Oracle.encAssign a]) }
         | some esc =>
           let rel := esc / mag
           if rel > floatSlack then
-            { acc with violation := some (app "violation" [.atom "var-escape", .str p.1, ratAtom p.2, encNum pb.lower, encNum pb.upper,
+            { acc with violation := some (app "violation" [.atom (if coefOverflow then "var-escape-coefficient-overflow" else "var-escape"), .str p.1, ratAtom p.2, encNum pb.lower, encNum pb.upper,
                 .atom (sci rel), Oracle.encAssign a]) }
           else
             let acc := { acc with worstVar := rmax acc.worstVar rel }
@@ -232,7 +258,6 @@ def check (tol : Sexp) (d cs es vs bs d' : List Sexp) : Sexp :=
     let allVars := Oracle.dedup (declared.filter (inEs.contains ·) ++ undeclared.filter (inEs.contains ·))
     let capB := perVar 1500 allVars.length
     let axesB := allVars.map fun v => (v, boxCandidates (pubOf v) lits capB)
-    let pubBox : List (String × Bounds E) := (Oracle.dedup (declared ++ undeclared)).map fun v => (v, pubOf v)
     let accB : Acc := (grid axesB).foldl (fun (acc : Acc) a =>
       if acc.violation.isSome then acc else
       let ρ := Oracle.lookup a
@@ -245,9 +270,8 @@ def check (tol : Sexp) (d cs es vs bs d' : List Sexp) : Sexp :=
         | some val =>
           match escape val p.2 with
           | none =>
-            -- the same expression over the same (published) box in exact arithmetic
-            let ex := Analyzer.boundsOf pubBox p.1
-            let kind := if ex.lower.isNaN || ex.upper.isNaN then "nan-expr-range" else "nan-expr-range-float-overflow"
+            -- root cause: a division by a literal whose reciprocal overflows in f64 (`div_by` scales by `1.0 / d`)
+            let kind := if hasReciprocalOverflow p.1 then "nan-expr-range-divby-subnormal" else "nan-expr-range"
             { acc with violation := some (app "violation" [.atom kind, p.1.enc, Oracle.encAssign a]) }
           | some esc =>
             let rel := esc / rmax mag (rabs val)
